@@ -574,6 +574,9 @@ func (d DSpec) VLData(dims []uint64, seed int) (goVal any, elems [][]byte) {
 		l := lens[mix(seed, i)%uint64(len(lens))]
 		if mix(seed, i+999)%4 != 0 && l > 200 {
 			l = int(mix(seed, i) % 64) // large elements are the minority
+		} else if l > 200 && mix(seed, i+555)%2 == 0 {
+			// around the sizes at which an element with its heap object header fills whole 4 KiB collections
+			l = []int{4000, 4040, 8100, 8140, 12240}[mix(seed, i+556)%5] + int(mix(seed, i+557)%100)
 		}
 		if es := vlTypes[d.Type].elem; es > 0 {
 			l = l / es * es
